@@ -113,8 +113,15 @@ fn gen_ordering(rng: &mut Rng, names: &[String]) -> Option<Vec<u8>> {
     }
 }
 
-pub fn c10(out: &mut dyn Write, tier: &str, rng: &mut Rng, st: &mut Stats) {
-    let n = if tier == "thorough" { 8000 } else { 450 };
+pub fn c10(out: &mut dyn Write, tier: &str, rng: &mut Rng, st: &mut Stats) { runs(out, tier, rng, st, "C10") }
+
+/// C20 through the binary: `-c` with every value of `-f` (the two options are independent: `-c` picks the
+/// direction in which forced choices are dropped, `-f` the rows that are shown)
+pub fn c20_cli(out: &mut dyn Write, tier: &str, rng: &mut Rng, st: &mut Stats) { runs(out, tier, rng, st, "C20") }
+
+fn runs(out: &mut dyn Write, tier: &str, rng: &mut Rng, st: &mut Stats, tag: &str) {
+    let c20 = tag == "C20";
+    let n = if c20 { if tier == "thorough" { 6000 } else { 500 } } else if tier == "thorough" { 8000 } else { 450 };
     for i in 0..n {
         let (gf, text, names) = gen_formula(rng, i % 5 == 0, 5);
         let ordering = gen_ordering(rng, &names);
@@ -127,8 +134,14 @@ pub fn c10(out: &mut dyn Write, tier: &str, rng: &mut Rng, st: &mut Stats) {
         if rng.chance(1, 4) { extra.push("-r".into()); flags.push('r'); }
         let f = if rng.chance(1, 2) { *rng.pick(&FILTER_SPELLINGS[..]) } else { "any" };
         if f != "any" || rng.chance(1, 4) { extra.push("-f".into()); extra.push(f.to_string()); }
-        let c = if rng.chance(1, 6) { *rng.pick(&FILTER_SPELLINGS[..]) } else { "any" };
+        let c = if c20 { *rng.pick(&FILTER_SPELLINGS[..10]) } else if rng.chance(1, 6) { *rng.pick(&FILTER_SPELLINGS[..]) } else { "any" };
         if c != "any" { extra.push("-c".into()); extra.push(c.to_string()); }
+        if c20 && !flags.contains('t') { extra.push("-t".into()); flags.push('t'); }
+        // half of the C20 runs: the filter of the rows is the opposite of the direction of -c
+        let f = if c20 && i % 2 == 0 && !extra.contains(&"-f".to_string()) {
+            let opp = if FILTER_SPELLINGS[..5].contains(&c) { FILTER_SPELLINGS[5 + (i / 2) % 5] } else { FILTER_SPELLINGS[(i / 2) % 5] };
+            extra.push("-f".into()); extra.push(opp.to_string()); opp
+        } else { f };
         let b: Option<u64> = if rng.chance(1, 5) { Some(1 + rng.below(3)) } else { None };
         if let Some(bn) = b { extra.push("-b".into()); extra.push(bn.to_string()); }
         let channel = rng.below(3);
@@ -171,7 +184,7 @@ pub fn c10(out: &mut dyn Write, tier: &str, rng: &mut Rng, st: &mut Stats) {
             Some(o) => (hex(o), std::str::from_utf8(o).map(classes_of).unwrap_or_default()),
             None => ("-".to_string(), String::new()),
         };
-        writeln!(out, "C10|run|{}|{}|{}|{}|{};f={};c={};b={}|{}|{}|{}|{}|{}|{}|{}",
+        writeln!(out, "{}|run|{}|{}|{}|{}|{};f={};c={};b={}|{}|{}|{}|{}|{}|{}|{}", tag,
             hex(text.as_bytes()), classes_of(&text), otext, ocl, flags, f, c,
             b.map(|x| x.to_string()).unwrap_or_else(|| "-".to_string()),
             r.class, header, rows, vlines, rlines, same, gen_ast).unwrap();
@@ -205,6 +218,8 @@ pub fn c11(out: &mut dyn Write, tier: &str, rng: &mut Rng, st: &mut Stats) {
             let mut next = 0usize;
             let mut ord: Vec<NamedSymbol> = Vec::new();
             for nm in &pool { next += rng.below(3) as usize; ord.push(NamedSymbol { name: Rc::new(nm.clone()), id: next }); next += 1; }
+            // the ids are distinct; the vector need not be sorted by them (the last element is then not the largest id)
+            if rng.chance(1, 2) { for k in (1..ord.len()).rev() { let j = rng.below(k as u64 + 1) as usize; ord.swap(k, j); } st.hit("api.unsorted-ids"); }
             let ord_field = ord.iter().map(|v| format!("{}:{}", hex(v.name.as_bytes()), v.id)).collect::<Vec<_>>().join(",");
             let (vars_o, res_o) = match parse_text(text.as_bytes(), Some(ord)) {
                 crate::formula::Parsed::Ok(pf) => (show_vars(&pf), match eval_guarded(&pf) { Ok(b) => show_ns(&b), Err(_) => "PANIC".to_string() }),
